@@ -35,6 +35,34 @@ fn main() {
                 }
             }
         }
+        "hashdiff" => {
+            // debugging aid: run a replay's plan under two hash seeds and show the first difference of the detailed logs
+            std::env::set_var("VERIF_LOG", "1");
+            world::install_thread();
+            let doc: serde_json::Value = serde_json::from_str(&std::fs::read_to_string(args.get(2).expect("file")).unwrap()).unwrap();
+            let plan: plan::Plan = serde_json::from_value(doc["plan"].clone()).unwrap();
+            let a = world::run_plan(&plan).unwrap();
+            let mut t = plan.clone();
+            let j: u64 = args.get(3).and_then(|s| s.parse().ok()).unwrap_or(1);
+            t.cfg.hash_seed = rng::mix(plan.cfg.hash_seed ^ (j * 0x1234_5678_9abc));
+            t.cfg.rng_seed = rng::mix(plan.cfg.rng_seed ^ (j * 0xfeed_f00d));
+            t.cfg.hash_per_map = if j == 1 { !plan.cfg.hash_per_map } else { plan.cfg.hash_per_map };
+            let b = world::run_plan(&t).unwrap();
+            let n = a.log.len().min(b.log.len());
+            match (0..n).find(|&i| a.log[i] != b.log[i]) {
+                None => println!("logs equal over {n} lines ({} / {})", a.log.len(), b.log.len()),
+                Some(i) => {
+                    for k in i.saturating_sub(12)..(i + 6).min(n) {
+                        if a.log[k] == b.log[k] {
+                            println!("   {}", a.log[k]);
+                        } else {
+                            println!(" A {}\n B {}", a.log[k], b.log[k]);
+                        }
+                    }
+                }
+            }
+            0
+        }
         "selftest" => check::selftest(args.get(2).and_then(|s| s.parse().ok()).unwrap_or(2000)),
         "hashes" => {
             let id = args.get(2).expect("property id");
